@@ -31,6 +31,11 @@ pub struct E1Prop {
     pub assumptions: &'static [&'static str],
     /// property-specific additional tier (enumerations, scaling families)
     pub extra: Option<ExtraTier>,
+    /// inputs excluded from the verdict domain because they match a known finding (returns its id);
+    /// never applied when a replay file is run
+    pub exclude: Option<fn(&Case) -> Option<&'static str>>,
+    /// the oracle without outcome-dependent tolerances (used for replay files); defaults to `oracle`
+    pub raw_oracle: Option<Oracle>,
 }
 
 pub fn replay_value(prop: &str, case: &Case, detail: &str, origin: &str) -> Value {
@@ -157,7 +162,7 @@ fn replay_findings(prop: &E1Prop, findings: &[Finding], rep: &mut Reporter, stat
                 total += 1;
                 let (out, ticks) = run_format(&case);
                 stats.count("known-finding-replay");
-                if (prop.oracle)(&case, &out, ticks).is_fail() {
+                if (prop.raw_oracle.unwrap_or(prop.oracle))(&case, &out, ticks).is_fail() {
                     still += 1;
                 }
             }
@@ -178,6 +183,9 @@ fn t0(prop: &E1Prop, findings: &[Finding], rep: &mut Reporter, stats: &mut Stats
     }
     let results = par_map(&items, |_, (f, c)| {
         let case = Case::new(f.source.clone(), *c);
+        if let Some(kf) = prop.exclude.and_then(|e| e(&case)) {
+            return (Verdict::Skip(kf), case.hash64(), Outcome::ParseError(String::new()));
+        }
         let (out, ticks) = run_format(&case);
         let v = (prop.oracle)(&case, &out, ticks);
         (v, case.hash64(), out)
@@ -196,6 +204,7 @@ fn t0(prop: &E1Prop, findings: &[Finding], rep: &mut Reporter, stats: &mut Stats
                     stats.samples.push(case_sample(&case, &format!("T0:{key}"), &out));
                 }
             }
+            Verdict::Skip(why) if why.starts_with("KF-") => *stats.excluded.entry(why.to_string()).or_default() += 1,
             Verdict::Skip(why) => stats.skip(why),
             Verdict::Fail(detail) => {
                 stats.count("T0-corpus");
@@ -242,6 +251,12 @@ fn t1(prop: &E1Prop, seed: u64, cases: u32, rep: &mut Reporter, stats: &mut Stat
                 }
                 return Ok(());
             };
+            if let Some(kf) = prop.exclude.and_then(|e| e(&case)) {
+                if !*failed.borrow() {
+                    *st.borrow_mut().excluded.entry(kf.to_string()).or_default() += 1;
+                }
+                return Ok(());
+            }
             let (out, ticks) = run_format(&case);
             let v = match crate::engine::guarded(|| (prop.oracle)(&case, &out, ticks)) {
                 Ok(v) => v,
@@ -318,7 +333,7 @@ pub fn replay(prop: &E1Prop, v: &Value) -> i32 {
         return 2;
     };
     let (out, ticks) = run_format(&case);
-    let verdict = (prop.oracle)(&case, &out, ticks);
+    let verdict = (prop.raw_oracle.unwrap_or(prop.oracle))(&case, &out, ticks);
     println!("input:\n{}", case.source);
     println!("config: {} ({})", case.cfg.label(), case.cfg.syntax.name());
     match &out {
